@@ -304,4 +304,27 @@ spec:
   alternateBackends: [{kind: Service, name: nosuch, weight: 100}, {kind: ImageStream, name: s1}]
   port: {targetPort: 80}
   tls: {termination: edge}
+`, `apiVersion: v1
+kind: Pod
+metadata:
+  name: p1
+  namespace: ns1
+  labels: {app: a}
+  ownerReferences: [{apiVersion: apps/v1, kind: ReplicaSet, name: rs1, controller: true}]
+spec:
+  containers: [{name: c, image: x, ports: [{containerPort: 80, name: http}]}]
+status:
+  hostIP: 192.168.1.1
+  podIPs: [{ip: 10.0.0.1}]
+`, `apiVersion: apps/v1
+kind: StatefulSet
+metadata: {name: d1, namespace: ns1}
+spec:
+  replicas: 2
+  serviceName: s1
+  selector: {matchLabels: {app: b}}
+  template:
+    metadata: {labels: {app: b}}
+    spec:
+      containers: [{name: c, image: x, ports: [{containerPort: 8080, name: web}]}]
 `}
